@@ -1,14 +1,14 @@
 #!/bin/bash
-# Apply every stored seeded change to /repo in turn, run all quick checks once, restore /repo. Prints a matrix line per seed.
-# NOTE: modifies /repo's working tree while it runs (restored after each seed); do not run other checks concurrently.
-cd /verif
-for d in seeded/*/; do
-  id=$(basename $d)
-  git -C /repo apply /verif/seeded/$id/patch.diff || { echo "$id: patch does not apply"; continue; }
-  out=$(./check all 2>&1)
-  git -C /repo checkout -- .
-  fired=$(echo "$out" | grep -E "new=[1-9]|BUILD" | awk '{print $1}' | tr '\n' ' ')
-  rules=$(echo "$out" | grep -E "^\s+\[(violation|anchor-missing|undecided)\]" | awk '{print $2}' | sort -u | tr '\n' ' ')
-  echo "$id -> fired: ${fired:-NONE} | rules: $rules"
+# usage: seed_matrix.sh [-j N]
+# Every stored seeded change (a property-breaking patch written by an independent sub-agent, confirmed by a failing
+# demonstration) is evaluated on a scratch worktree of /repo (see eval_patch.sh): its target property must FIRE.
+J=4; if [ "$1" = "-j" ]; then J=$2; shift 2; fi
+S=/var/tmp/verif-snap-seed-$$
+mkdir -p $S/p && cp -rp /verif/check /verif/hdlint /verif/known_findings.txt /verif/mutants /verif/properties.jsonl $S/ 2>/dev/null
+trap 'rm -rf $S' EXIT
+export VERIF_ROOT=$S
+for d in /verif/seeded/*/; do id=$(basename $d); cp $d/patch.diff $S/p/seed-$id.diff; done
+ls $S/p/*.diff | xargs -P $J -n 1 /verif/tools/eval_patch.sh | grep -E "^seed-" | sort | while read line; do
+  id=$(echo "$line" | sed 's/^seed-\([^:]*\):.*/\1/'); prop=${id%%-*}
+  if echo "$line" | grep -q "FIRED.* $prop\b\|FIRED $prop\b"; then echo "$line  [target $prop: detected]"; else echo "$line  [target $prop: MISSED]"; fi
 done
-git -C /repo status --short | head -3
